@@ -2,6 +2,7 @@ import QuantemModel.Lemmas.AberrationPolar
 import QuantemModel.Lemmas.AberrationAlias
 import QuantemModel.Lemmas.AberrationGrad
 import QuantemModel.Lemmas.AberrationGuard
+import QuantemModel.Lemmas.AberrationState
 /-!
 C12 — one aberration surface across polar, Cartesian, gradient and fitted forms.
 Only property theorems and non-vacuity examples live here.  Everything named
@@ -492,6 +493,120 @@ example : ∃ r, probeParams DEFAULT_PROBE_PARAM_KEYS POLAR_SYMBOLS POLAR_ALIASE
 /-- the guards' hypothesis is satisfiable with a non-trivial coefficient set -/
 example : ∀ k ∈ aberration_surface_guards.getD 1 [], (fun k => if k = "C10" then (5 : ℝ) else 0) k = 0 := by
   simp [aberration_surface_guards]
+
+/-! ### the alias code as STATE: histories, rejected calls, DirectPtychography entry points (growth round 5) -/
+
+/-- the `ProbeBase.probe_params` setter with the tables of the source -/
+noncomputable abbrev ppAssign (mo : Option Nat) := PState.assign (R := ℝ) DEFAULT_PROBE_PARAM_KEYS POLAR_SYMBOLS POLAR_ALIASES mo
+noncomputable abbrev ppFinal (mo : Option Nat) := PState.final (R := ℝ) DEFAULT_PROBE_PARAM_KEYS POLAR_SYMBOLS POLAR_ALIASES mo
+noncomputable abbrev ppAccepted (mo : Option Nat) := accepted (R := ℝ) DEFAULT_PROBE_PARAM_KEYS POLAR_SYMBOLS POLAR_ALIASES mo
+
+/-- **exception safety of the setter**: an assignment is rejected (unknown key → ValueError at the key check, or a
+value `float()` rejects → that error part-way through the conversions) exactly when it is not `accepted` — a
+predicate of the assigned dict alone — and a rejected assignment leaves `_probe_params` (top-level settings AND
+`aberration_coefs`) exactly as it was. -/
+theorem probe_params_rejected_keeps_state (mo : Option Nat) (st : PState ℝ) (p : List (String × XTop ℝ)) :
+    ((ppAssign mo st p).1 = none ↔ ppAccepted mo p = true) ∧
+    ((ppAssign mo st p).1 ≠ none → (ppAssign mo st p).2 = st) := by
+  refine ⟨assign_result_iff _ _ _ mo st p, fun h => ?_⟩
+  have : ppAccepted mo p = false := by
+    by_cases ha : ppAccepted mo p = true
+    · exact absurd ((assign_result_iff _ _ _ mo st p).2 ha) h
+    · simpa using ha
+  exact (assign_rejected _ _ _ mo st p this).1
+
+/-- **rejected assignments are no-ops in EVERY history**: deleting them from a history of assignments on one
+object does not change the final `_probe_params`. -/
+theorem probe_params_rejected_calls_are_noops (mo : Option Nat) (st : PState ℝ) (hist : List (List (String × XTop ℝ))) :
+    ppFinal mo st hist = ppFinal mo st (hist.filter (ppAccepted mo)) :=
+  final_filter_accepted _ _ _ mo hist st
+
+/-- **what an accepted assignment stores is the hand model the `defocus_alias_probe_params*` theorems are about**
+(on the same dict, values that are never converted erased). -/
+theorem probe_params_setter_is_hand_model (mo : Option Nat) (st : PState ℝ) (p : List (String × XTop ℝ))
+    (h : ppAccepted mo p = true) :
+    probeParams DEFAULT_PROBE_PARAM_KEYS POLAR_SYMBOLS POLAR_ALIASES mo (p.map fun kv => (kv.1, eraseTop kv.2))
+      = .ok (ppAssign mo st p).2.aber := by
+  have hk : keysOk DEFAULT_PROBE_PARAM_KEYS POLAR_SYMBOLS POLAR_ALIASES p = true := by
+    unfold ppAccepted accepted at h; simp only [Bool.and_eq_true] at h; exact h.1
+  exact aberOf_eq_probeParams _ _ _ mo p _ hk (assign_accepted _ _ _ mo st p h).2
+
+/-- **the defocus alias through every history**: whatever was assigned before (accepted or not) and however many
+REJECTED assignments follow, if the last accepted assignment holds a top-level `defocus = x` with no later writer of
+C10, the object stores C10 = −x. -/
+theorem probe_params_history_defocus (mo : Option Nat) (st : PState ℝ) (h1 h2 : List (List (String × XTop ℝ)))
+    (l1 l2 : List (String × XTop ℝ)) (x : ℝ)
+    (hp : ppAccepted mo (l1 ++ ("defocus", .leaf (.num x)) :: l2) = true)
+    (h2r : ∀ q ∈ h2, ppAccepted mo q = false)
+    (hn : ∀ kv ∈ l2.map (fun kv => (kv.1, eraseTop kv.2)), NonWriterTop POLAR_SYMBOLS POLAR_ALIASES "C10" kv) :
+    dget (ppFinal mo st (h1 ++ (l1 ++ ("defocus", .leaf (.num x)) :: l2) :: h2)).aber "C10" = some (-x) := by
+  have hacc := final_aber_last_accepted DEFAULT_PROBE_PARAM_KEYS POLAR_SYMBOLS POLAR_ALIASES mo h1 h2 _ st hp h2r
+  have hk : keysOk DEFAULT_PROBE_PARAM_KEYS POLAR_SYMBOLS POLAR_ALIASES (l1 ++ ("defocus", XTop.leaf (XVal.num x)) :: l2) = true := by
+    unfold ppAccepted accepted at hp; simp only [Bool.and_eq_true] at hp; exact hp.1
+  have hm := aberOf_eq_probeParams _ _ _ mo _ _ hk hacc
+  rw [List.map_append, List.map_cons] at hm
+  simp only [eraseTop] at hm
+  exact probeParams_defocus _ _ _ (by decide) mo _ _ x _ hn hm
+
+/-
+FULL STATEMENT (false of the model, hence of the code): "whenever `probe_params` reports a number under its
+top-level 'defocus' entry, `aberration_coefs['C10']` is minus that number".  The setter keeps the top-level entries of
+earlier assignments (`DEFAULT | old | params`) but recomputes `aberration_coefs` from the new dict alone, so a later
+assignment by canonical key leaves a stale report.  No alias that is ACCEPTED is misread (theorems above), so this
+is not a violation of C12 as stated; it is recorded here and replayed on the real code by the `pphist` stream.
+-/
+/-- the stale top-level `defocus` report: `{"defocus": 100}` then `{"C10": -200}` -/
+theorem probe_params_reported_defocus_counterexample :
+    let st := PState.final (R := Rat) DEFAULT_PROBE_PARAM_KEYS POLAR_SYMBOLS POLAR_ALIASES (some 1) ⟨[], []⟩
+      [[("defocus", .leaf (.num 100))], [("C10", .leaf (.num (-200)))]]
+    st.top = [("defocus", .leaf (.num 100)), ("C10", .leaf (.num (-200)))] ∧ dget st.aber "C10" = some (-200) := by
+  decide
+
+/-- the tables are closed: every alias names a polar symbol (both copies) -/
+theorem alias_tables_closed :
+    TablesClosed POLAR_SYMBOLS POLAR_ALIASES ∧ TablesClosed VALIDATORS_POLAR_SYMBOLS VALIDATORS_POLAR_ALIASES :=
+  ⟨⟨by decide, by decide⟩, ⟨by decide, by decide⟩⟩
+
+/-- **only polar symbols ever reach the surface code through a HyperparameterState**: for every initial dict the
+constructor accepts, every history of operations (reads with overrides, `clear_optimized`, `clear_all`, the
+write-backs of `optimize_hyperparameters` / `grid_search_hyperparameters` for any best-parameter dict in the USER'S
+key names, of `fit_hyperparameters_cross_correlation` / `…_least_squares`, accepted or rejected) and every override,
+every key of the dict `current_aberrations` hands to `aberration_surface` / `…_gradients` is one of the 25 polar
+symbols — an alias key is never left unresolved (where the surface code would silently read 0 for it). -/
+theorem hstate_only_symbols_reach_surface (ini : List (String × XVal ℝ)) (ops : List (HOp ℝ))
+    (o : Option (List (String × XVal ℝ))) (st0 : HState ℝ) (d : List (String × ℝ))
+    (hc : HState.create VALIDATORS_POLAR_SYMBOLS VALIDATORS_POLAR_ALIASES ini = .ok st0)
+    (h : HState.current VALIDATORS_POLAR_SYMBOLS VALIDATORS_POLAR_ALIASES
+          (HState.final VALIDATORS_POLAR_SYMBOLS VALIDATORS_POLAR_ALIASES st0 ops) o = .ok d) :
+    ∀ kv ∈ d, VALIDATORS_POLAR_SYMBOLS.contains kv.1 = true :=
+  current_canon _ _ alias_tables_closed.2 _
+    (final_canon _ _ alias_tables_closed.2 ops st0 (create_canon _ _ alias_tables_closed.2 ini st0 hc)) o d h
+
+/-- **searching / fitting over the alias is searching over the symbol**: the write-back of a hyperparameter search
+whose best parameter is `defocus = x` leaves the state (and hands the final reconstruction the coefficients) of the
+same search over `C10 = −x`; the lateral shifts that seed the cross-correlation fit are computed from C10 = −x. -/
+theorem entry_points_alias_eq_canonical (st : HState ℝ) (x : ℝ) :
+    HState.step VALIDATORS_POLAR_SYMBOLS VALIDATORS_POLAR_ALIASES st (.search [("defocus", .num x)] [])
+      = HState.step VALIDATORS_POLAR_SYMBOLS VALIDATORS_POLAR_ALIASES st (.search [("C10", .num (-x))] []) ∧
+    crossCorrelationShiftCoefs VALIDATORS_POLAR_SYMBOLS VALIDATORS_POLAR_ALIASES [("defocus", XVal.num x)]
+      = .ok [("C10", -x)] ∧
+    crossCorrelationShiftCoefs VALIDATORS_POLAR_SYMBOLS VALIDATORS_POLAR_ALIASES [("C10", XVal.num (-x))]
+      = .ok [("C10", -x)] := by
+  have h1 := validateX_defocus_single VALIDATORS_POLAR_SYMBOLS VALIDATORS_POLAR_ALIASES x (by decide) (by decide)
+  have h2 := validateX_symbol_single VALIDATORS_POLAR_SYMBOLS VALIDATORS_POLAR_ALIASES "C10" (-x) (by decide)
+  exact ⟨step_search_nil_congr _ _ st _ _ (h1.trans h2.symm), h1, h2⟩
+
+/-- non-vacuity: an accepted and a rejected assignment exist (`{"defocus": 250, "astigmatism": "strong"}` is
+rejected part-way), and a state with an optimised alias exists -/
+example : ppAccepted (some 5) [("defocus", .leaf (.num 250))] = true ∧
+    ppAccepted (some 5) [("defocus", .leaf (.num 250)), ("astigmatism", .leaf (.bad .valueError))] = false ∧
+    ppAccepted (some 5) [("defocuss", .leaf (.num 1))] = false := by
+  refine ⟨?_, ?_, ?_⟩ <;> decide
+example : ∃ st0, HState.create (R := ℝ) VALIDATORS_POLAR_SYMBOLS VALIDATORS_POLAR_ALIASES [("defocus", .num 100)] = .ok st0 := by
+  refine ⟨⟨[("C10", -100)], []⟩, ?_⟩
+  unfold HState.create
+  rw [validateX_defocus_single VALIDATORS_POLAR_SYMBOLS VALIDATORS_POLAR_ALIASES (100 : ℝ) (by decide) (by decide)]
+
 
 /-
 `fit_roundtrip` is proved above for the MODEL (`lstsq2` = normal equations, `polar2` = closed form).  What ties
